@@ -586,6 +586,10 @@ Proof.
   rewrite <- (G 0%nat). apply flat_map_ext. intros i. now rewrite Nat.sub_0_r.
 Qed.
 
+Lemma flat_map_map {A B C} (f : B -> list C) (g : A -> B) l :
+  flat_map f (map g l) = flat_map (fun x => f (g x)) l.
+Proof. induction l as [|x l IH]; [reflexivity|]. cbn [map flat_map]. now rewrite IH. Qed.
+
 Lemma nth_map_some {A B} (f : A -> B) l j x d : nth_error l j = Some x -> nth j (map f l) d = f x.
 Proof.
   intros H. apply nth_error_nth. rewrite nth_error_map, H. reflexivity.
@@ -654,4 +658,250 @@ Proof.
                   else firstn (fst (bridge_res (b :: r))) (b :: r)) <= Nat.min (fst (bridge_res (b :: r))) (length (b :: r)))%nat.
   { destruct (bytes_eqb _ _); [cbn; lia|]. rewrite firstn_length. lia. }
   lia.
+Qed.
+
+(* ================================================================================================
+   Part 7 — the legacy digest preimage *)
+Definition pin (blank : bool) (script' : bytes) (idx : nat) (p : nat * txin) : txin :=
+  let (i, ti) := p in
+  mk_txin (ti_hash ti) (ti_index ti) (if (i =? idx)%nat then script' else [])
+          (if blank && negb (i =? idx)%nat then 0 else ti_seq ti).
+
+Lemma enumerate_from_length {A} (l : list A) k : length (enumerate_from k l) = length l.
+Proof. revert k; induction l; intros; cbn [enumerate_from length]; auto. Qed.
+
+Lemma ins0_eq ins script' idx :
+  map (fun p : nat * txin => let (i, ti) := p in tx_in_for_idx i ti script' idx) (enumerate_from 0 ins)
+  = map (pin false script' idx) (enumerate_from 0 ins).
+Proof.
+  apply map_ext. intros [i ti]. unfold tx_in_for_idx, pin. cbn [andb].
+  destruct (i =? idx)%nat; reflexivity.
+Qed.
+
+Lemma zero_other_eq ins script' idx :
+  zero_other_sequences idx (map (pin false script' idx) (enumerate_from 0 ins))
+  = map (pin true script' idx) (enumerate_from 0 ins).
+Proof.
+  unfold zero_other_sequences. rewrite enumerate_map, map_map.
+  apply map_ext. intros [i ti]. cbn [fst pin andb].
+  destruct (i =? idx)%nat; reflexivity.
+Qed.
+
+Lemma enumerate_nth_error {A} (l : list A) k j x :
+  nth_error l j = Some x -> nth_error (enumerate_from k l) j = Some ((k + j)%nat, x).
+Proof.
+  revert k j; induction l as [|y l IH]; intros k [|j] H; try discriminate.
+  - injection H as ->. cbn. now rewrite Nat.add_0_r.
+  - cbn [enumerate_from nth_error] in *. rewrite (IH (S k) j H). f_equal. f_equal. lia.
+Qed.
+
+Section LegacyProof.
+Variables (t : tx) (script : bytes) (idx : nat) (ht : N).
+Hypothesis Hwf : tx_wf t.
+Hypothesis Hidx : (idx < length (tx_ins t))%nat.
+Hypothesis Hscr : N.of_nat (length script) < 2 ^ 64.
+Let script' := core_find_and_delete [n2b OP_CODESEPARATOR] script.
+Hypothesis Hdec : core_decodable script = true.
+
+Lemma script'_len : N.of_nat (length script') < 2 ^ 64.
+Proof.
+  pose proof (find_and_delete_decodable _ script codesep_complete Hdec) as E.
+  rewrite delete_subscript_dws in E.
+  assert (E2 : script' = dws (length script) script [n2b OP_CODESEPARATOR]) by (unfold script'; congruence).
+  rewrite E2.
+  pose proof (dws_length [n2b OP_CODESEPARATOR] (length script) script). lia.
+Qed.
+
+Lemma pin_wf blank j x : nth_error (tx_ins t) j = Some x ->
+  stream_txin (pin blank script' idx (j, x)) = Ret (ser_txin_pure (pin blank script' idx (j, x))).
+Proof.
+  intros Hj. destruct Hwf as (_ & _ & Hins & _).
+  pose proof (proj1 (Forall_forall _ _) Hins x (nth_error_In _ _ Hj)) as (Hh & Hi & Hq).
+  apply stream_txin_ser.
+  - unfold pin, txin_wf. cbn [ti_hash ti_index ti_seq]. repeat split; auto.
+    destruct (blank && negb (j =? idx)%nat); [cbn; lia|exact Hq].
+  - unfold pin. cbn [ti_script]. destruct (j =? idx)%nat; [apply script'_len|cbn; lia].
+Qed.
+
+(* all inputs, no ANYONECANPAY *)
+Lemma inputs_all (blank : bool) : f_anyonecanpay ht = false -> blank = (f_single ht || f_none ht) ->
+  stream_all stream_txin (map (pin blank script' idx) (enumerate_from 0 (tx_ins t)))
+  = Ret (flat_map (ser_input script (to_core t) idx ht) (seq 0 (length (tx_ins t)))).
+Proof.
+  intros Hacp Hb.
+  rewrite (stream_all_pure stream_txin ser_txin_pure).
+  2:{ apply Forall_forall. intros y Hy. apply in_map_iff in Hy. destruct Hy as [[j x] [<- Hin]].
+      apply In_nth_error in Hin. destruct Hin as [n Hn].
+      assert (Hlt : (n < length (enumerate_from 0 (tx_ins t)))%nat) by (apply nth_error_Some; congruence).
+      rewrite enumerate_from_length in Hlt.
+      destruct (nth_error (tx_ins t) n) as [x'|] eqn:En; [|apply nth_error_None in En; lia].
+      rewrite (enumerate_nth_error _ 0 n x' En) in Hn. injection Hn as <- <-. now apply pin_wf. }
+  f_equal. rewrite flat_map_map.
+  apply flat_map_enumerate_seq. intros j x Hj. cbn [Nat.add].
+  unfold ser_input. rewrite Hacp. unfold to_core. cbn [ctx_vin].
+  rewrite (nth_map_some to_core_in _ j x) by exact Hj.
+  unfold ser_txin_pure, pin, to_core_in, ser_outpoint.
+  cbn [ti_hash ti_index ti_script ti_seq in_prevout op_hash op_n in_nSequence].
+  rewrite <- app_assoc. f_equal. f_equal.
+  rewrite <- Hb. destruct (j =? idx)%nat eqn:E; cbn [negb andb].
+  - rewrite andb_false_r. f_equal. rewrite ser_script_code_decodable by exact Hdec. reflexivity.
+  - rewrite andb_true_r. destruct blank; reflexivity.
+Qed.
+
+(* ANYONECANPAY: only input idx *)
+Lemma inputs_acp (blank : bool) x : f_anyonecanpay ht = true -> nth_error (tx_ins t) idx = Some x ->
+  nth_error (map (pin blank script' idx) (enumerate_from 0 (tx_ins t))) idx = Some (pin blank script' idx (idx, x))
+  /\ stream_all stream_txin [pin blank script' idx (idx, x)]
+     = Ret (flat_map (ser_input script (to_core t) idx ht) (seq 0 1)).
+Proof.
+  intros Hacp Hx. split.
+  - rewrite nth_error_map, (enumerate_nth_error _ 0 idx x Hx). reflexivity.
+  - cbn [stream_all seq flat_map]. rewrite (pin_wf blank idx x Hx). cbn [bind]. rewrite !app_nil_r.
+    f_equal. unfold ser_input. rewrite Hacp. unfold to_core. cbn [ctx_vin].
+    rewrite (nth_map_some to_core_in _ idx x) by exact Hx.
+    unfold ser_txin_pure, pin, to_core_in, ser_outpoint.
+    cbn [ti_hash ti_index ti_script ti_seq in_prevout op_hash op_n in_nSequence].
+    rewrite Nat.eqb_refl. cbn [negb andb]. rewrite andb_false_r.
+    rewrite <- app_assoc. do 2 f_equal. f_equal.
+    rewrite ser_script_code_decodable by exact Hdec. reflexivity.
+Qed.
+
+Lemma outs_wf_forall : Forall (fun o => stream_txout o = Ret (ser_txout (to_core_out o))) (tx_outs t).
+Proof.
+  destruct Hwf as (_ & _ & _ & Ho & _). eapply Forall_impl; [|exact Ho]. intros o. apply stream_txout_ser.
+Qed.
+
+Lemma outputs_all : f_single ht = false -> f_none ht = false ->
+  stream_all stream_txout (tx_outs t)
+  = Ret (flat_map (ser_output (to_core t) idx ht) (seq 0 (length (tx_outs t)))).
+Proof.
+  intros Hs Hn. rewrite (stream_all_pure _ _ _ outs_wf_forall). f_equal.
+  unfold ser_output. rewrite Hs. cbn [andb]. unfold to_core. cbn [ctx_vout].
+  rewrite <- (map_length to_core_out) at 1.
+  rewrite (flat_map_seq_nth ser_txout (map to_core_out (tx_outs t)) null_txout).
+  now rewrite flat_map_map.
+Qed.
+
+Lemma blank_is_null : to_core_out (mk_txout gen_blank_amount []) = null_txout.
+Proof. unfold to_core_out, null_txout. cbn [to_value to_script]. now rewrite g_blank. Qed.
+
+Lemma outputs_single o : f_single ht = true -> nth_error (tx_outs t) idx = Some o ->
+  stream_all stream_txout (repeat (mk_txout gen_blank_amount []) idx ++ [o])
+  = Ret (flat_map (ser_output (to_core t) idx ht) (seq 0 (idx + 1))).
+Proof.
+  intros Hs Ho.
+  assert (Hblank : stream_txout (mk_txout gen_blank_amount []) = Ret (ser_txout null_txout)).
+  { rewrite <- blank_is_null. apply stream_txout_ser. unfold txout_wf. cbn [to_value to_script length].
+    rewrite g_blank. split; [vm_compute; reflexivity|cbn; lia]. }
+  rewrite (stream_all_pure stream_txout (fun o => ser_txout (to_core_out o))).
+  2:{ apply Forall_app. split.
+      - apply Forall_forall. intros y Hy. apply repeat_spec in Hy. subst y. now rewrite blank_is_null.
+      - constructor; [|constructor]. destruct Hwf as (_ & _ & _ & Hos & _).
+        apply stream_txout_ser. exact (proj1 (Forall_forall _ _) Hos o (nth_error_In _ _ Ho)). }
+  f_equal. rewrite seq_app, !flat_map_app. cbn [Nat.add seq flat_map]. rewrite !app_nil_r. f_equal.
+  - apply flat_map_repeat. intros i Hi. unfold ser_output. rewrite Hs.
+    replace (i =? idx)%nat with false by lia. cbn [andb negb]. now rewrite blank_is_null.
+  - unfold ser_output. rewrite Hs, Nat.eqb_refl. cbn [negb andb]. unfold to_core. cbn [ctx_vout].
+    now rewrite (nth_map_some to_core_out _ idx o) by exact Ho.
+Qed.
+End LegacyProof.
+
+Definition presig_of_core (c : core_sighash) : presig :=
+  match c with CoreOne => PConst (2 ^ 248) | CorePreimage p => PPreimage p end.
+
+Lemma finish_eq t script idx ht (blank : bool) outs' nOut x :
+  tx_wf t -> (idx < length (tx_ins t))%nat -> ht < 2 ^ 32 -> N.of_nat (length script) < 2 ^ 64 ->
+  core_decodable script = true ->
+  blank = (f_single ht || f_none ht) ->
+  stream_all stream_txout outs' = Ret (flat_map (ser_output (to_core t) idx ht) (seq 0 nOut)) ->
+  length outs' = nOut -> N.of_nat nOut < 2 ^ 64 ->
+  nOut = (if f_none ht then 0%nat else if f_single ht then (idx + 1)%nat else length (ctx_vout (to_core t))) ->
+  nth_error (tx_ins t) idx = Some x ->
+  let L := map (pin blank (core_find_and_delete [n2b OP_CODESEPARATOR] script) idx) (enumerate_from 0 (tx_ins t)) in
+  bind (if N.land ht SIGHASH_ANYONECANPAY =? 0 then Ret L
+        else match nth_error L idx with Some x0 => Ret [x0] | None => Raise E_INDEX end)
+       (fun txs_in => bind (tx_hash_preimage (tx_version t) txs_in outs' (tx_lock t) ht)
+                           (fun p => Ret (PPreimage p)))
+  = Ret (PPreimage (ser_for_signature script (to_core t) idx ht ++ le32 ht)).
+Proof.
+  intros Hwf Hidx Hht Hscr Hdec Hb Houts Hlen HnOut HnOutEq Hx L.
+  pose proof Hwf as (Hv & Hl & _ & _ & Hni & _).
+  unfold ser_for_signature. rewrite <- HnOutEq.
+  assert (Ev : ctx_nVersion (to_core t) = tx_version t) by reflexivity.
+  assert (El : ctx_nLockTime (to_core t) = tx_lock t) by reflexivity.
+  assert (Elen : length (ctx_vin (to_core t)) = length (tx_ins t)) by (unfold to_core; cbn [ctx_vin]; apply map_length).
+  rewrite Ev, El, Elen.
+  destruct (N.land ht SIGHASH_ANYONECANPAY =? 0) eqn:EA.
+  - assert (Hacp : f_anyonecanpay ht = false) by (unfold f_anyonecanpay; now rewrite EA).
+    rewrite Hacp. cbn [bind]. unfold tx_hash_preimage.
+    rewrite write_le4 by exact Hv. cbn [bind].
+    unfold L. rewrite map_length, enumerate_from_length.
+    rewrite stream_varint_compact by exact Hni. cbn [bind].
+    rewrite (inputs_all t script idx ht Hwf Hidx Hscr Hdec blank Hacp Hb). cbn [bind].
+    rewrite Hlen, stream_varint_compact by exact HnOut. cbn [bind].
+    rewrite Houts. cbn [bind].
+    rewrite write_le4 by exact Hl. rewrite write_le4 by exact Hht. cbn [bind].
+    repeat rewrite <- app_assoc. reflexivity.
+  - assert (Hacp : f_anyonecanpay ht = true) by (unfold f_anyonecanpay; now rewrite EA).
+    rewrite Hacp.
+    destruct (inputs_acp t script idx ht Hwf Hidx Hscr Hdec blank x Hacp Hx) as [Hn Hs].
+    unfold L. rewrite Hn. cbn [bind]. unfold tx_hash_preimage.
+    rewrite write_le4 by exact Hv. cbn [bind length].
+    rewrite stream_varint_compact by (vm_compute; reflexivity). cbn [bind].
+    rewrite Hs. cbn [bind].
+    rewrite Hlen, stream_varint_compact by exact HnOut. cbn [bind].
+    rewrite Houts. cbn [bind].
+    rewrite write_le4 by exact Hl. rewrite write_le4 by exact Hht. cbn [bind].
+    repeat rewrite <- app_assoc. reflexivity.
+Qed.
+
+Lemma land31_cases ht : f_none ht = true -> f_single ht = false.
+Proof. unfold f_none, f_single, SIGHASH_NONE, SIGHASH_SINGLE. lia. Qed.
+
+Lemma legacy_presig_eq t script idx ht :
+  tx_wf t -> (idx < length (tx_ins t))%nat -> ht < 2 ^ 32 -> N.of_nat (length script) < 2 ^ 64 ->
+  core_decodable script = true ->
+  legacy_presig t script idx ht = Ret (presig_of_core (core_signature_hash_legacy script (to_core t) idx ht)).
+Proof.
+  intros Hwf Hidx Hht Hscr Hdec.
+  pose proof Hwf as (_ & _ & _ & _ & _ & Hno).
+  unfold legacy_presig.
+  rewrite g_codesep, (find_and_delete_decodable _ script codesep_complete Hdec). cbn [bind].
+  rewrite ins0_eq.
+  destruct g_legacy_masks as [-> ->]. rewrite g_none, g_single, g_acp, g_single_value.
+  unfold core_signature_hash_legacy.
+  assert (Elen : length (ctx_vin (to_core t)) = length (tx_ins t)) by (unfold to_core; cbn [ctx_vin]; apply map_length).
+  assert (Eout : length (ctx_vout (to_core t)) = length (tx_outs t)) by (unfold to_core; cbn [ctx_vout]; apply map_length).
+  rewrite Elen, Eout.
+  replace (length (tx_ins t) <=? idx)%nat with false by lia.
+  destruct (nth_error (tx_ins t) idx) as [x|] eqn:Ex; [|apply nth_error_None in Ex; lia].
+  cbv zeta.
+  destruct (N.land ht 31 =? SIGHASH_NONE) eqn:EN.
+  - assert (Hn : f_none ht = true) by exact EN.
+    pose proof (land31_cases ht Hn) as Hs. rewrite Hs. cbn [andb presig_of_core].
+    rewrite zero_other_eq.
+    apply (finish_eq t script idx ht true [] 0%nat x); auto.
+    + now rewrite Hs, Hn.
+    + vm_compute; reflexivity.
+    + now rewrite Hn.
+  - assert (Hn : f_none ht = false) by exact EN.
+    destruct (N.land ht 31 =? SIGHASH_SINGLE) eqn:ES.
+    + assert (Hs : f_single ht = true) by exact ES. rewrite Hs. cbn [andb].
+      destruct (nth_error (tx_outs t) idx) as [o|] eqn:Eo.
+      * assert (idx < length (tx_outs t))%nat by (apply nth_error_Some; congruence).
+        replace (length (tx_outs t) <=? idx)%nat with false by lia. cbn [presig_of_core].
+        rewrite zero_other_eq.
+        apply (finish_eq t script idx ht true _ (idx + 1)%nat x); auto.
+        -- now rewrite Hs.
+        -- eapply outputs_single; eassumption.
+        -- rewrite app_length, repeat_length. reflexivity.
+        -- lia.
+        -- now rewrite Hn, Hs.
+      * apply nth_error_None in Eo. replace (length (tx_outs t) <=? idx)%nat with true by lia.
+        reflexivity.
+    + assert (Hs : f_single ht = false) by exact ES. rewrite Hs. cbn [andb presig_of_core].
+      apply (finish_eq t script idx ht false _ (length (tx_outs t)) x); auto.
+      * now rewrite Hs, Hn.
+      * now apply outputs_all.
+      * now rewrite Hn, Hs.
 Qed.
